@@ -278,7 +278,12 @@ class StateWorld(Run):
         m = rng.randrange(1, min(n, nmax or n) + 1)
         if rng.random() < 0.08 and n <= 12:
             m = n      # a gate on the whole register takes the unmasked ("global") code path
-        qubits = sorted(rng.sample(range(n), m))
+        pool = self.cfg.get("hot") if n > 12 else None
+        if pool and len(pool) >= m:
+            # wide registers: gates meet on a handful of qubits around the 32 / 64 boundaries
+            qubits = sorted(rng.sample(pool, m))
+        else:
+            qubits = sorted(rng.sample(range(n), m))
         kinds = ["gen", "fmap", "bmap", "named", "fbmap"] + (["random"] if allow_random else [])
         kind = rng.choice(kinds)
         spec = {"kind": kind, "qubits": qubits}
